@@ -713,6 +713,12 @@ bool CanettiGennaroJareckiKrawczykRabinRVSS::Share
 					cnt++;
 				}
 				while (cnt <= n);
+				// a dealer who does not answer every complaint is disqualified as well
+				if (cnt < complaints_counter[j])
+				{
+					err << "RVSS(" << label << "): P_" << idx2dkg[i] << ": not all complaints answered in step 1c; complaint against P_" << idx2dkg[j] << std::endl;
+					complaints.push_back(idx2dkg[j]);
+				}
 			}
 		}
 		QUAL.clear();
@@ -1650,6 +1656,12 @@ bool CanettiGennaroJareckiKrawczykRabinZVSS::Share
 					cnt++;
 				}
 				while (cnt <= n);
+				// a dealer who does not answer every complaint is disqualified as well
+				if (cnt < complaints_counter[j])
+				{
+					err << "ZVSS(" << label << "): P_" << idx2dkg[i] << ": not all complaints answered in step 1c; complaint against P_" << idx2dkg[j] << std::endl;
+					complaints.push_back(idx2dkg[j]);
+				}
 			}
 		}
 		QUAL.clear();
